@@ -828,6 +828,11 @@ type vfsStack struct {
 	// qlogSink, if set, also receives every entry (C15 funnels them through
 	// the real querylog.FileSystem).
 	qlogSink func(e *querylog.Entry) error
+
+	// reqFilter, if set, is consulted by the scripted filter for requests
+	// whose scripted outcome is "none" (C15 puts a real hashprefix.Filter
+	// there, as the composite filter of the real storage does).
+	reqFilter func(ctx context.Context, r *filter.Request) (filter.Result, error)
 }
 
 func (s *vfsStack) lookup(idx [2]int, ok bool) (*agd.Profile, *agd.Device, error) {
@@ -1013,6 +1018,10 @@ func vfsNewStackGeo(tb testing.TB, conf *vfsConfig, realGeo geoip.Interface) (s 
 		OnFilterRequest: func(ctx context.Context, r *filter.Request) (filter.Result, error) {
 			var sc vfsScript
 			s.on(ctx, func(tr *vfsTrace, scp *vfsScript) { tr.FilterReq++; sc = *scp })
+			if sc.Outcome == vfsOutNone && s.reqFilter != nil {
+				return s.reqFilter(ctx, r)
+			}
+
 			switch sc.Outcome {
 			case vfsOutReqBlocked:
 				return &filter.ResultBlocked{List: sc.List, Rule: sc.Rule}, nil
